@@ -75,6 +75,32 @@ theorem transportClose_EB {s : S} {A T : Nat} (hn : s.down = false → s.now ≤
   · exact h
   · exact lose_EB _ (s := { s with closing := true }) hn h
 
+theorem transportClose_now (s : S) : s.transportClose.now = s.now := by
+  rcases transportClose_cases s with ⟨_, e⟩ | ⟨_, _, e⟩ | ⟨_, _, e⟩ <;> rw [e]
+  exact lose_now _ _
+
+theorem transportClose_down {s : S} (hd : s.down = true) : s.transportClose.down = true := by
+  rcases transportClose_cases s with ⟨_, e⟩ | ⟨_, _, e⟩ | ⟨_, _, e⟩ <;> rw [e]
+  · exact hd
+  · exact hd
+  · exact lose_down _ _ hd
+
+/-- `close()` followed at once by `abort()` -/
+theorem closeAbort_EB {s : S} {A T : Nat} (hn : s.down = false → s.now ≤ A) (h : EB s A T) :
+    EB s.transportClose.doAbort A T := by
+  refine doAbort_EB ?_ (transportClose_EB hn h)
+  intro hd
+  rw [transportClose_now]
+  apply hn
+  cases hds : s.down
+  · rfl
+  · rw [transportClose_down hds] at hd; cases hd
+
+theorem hEnd_toCloser (A : Nat) (f : Bool) (n i : Nat) (h : Handler) :
+    hEnd A (toCloser f n i h) ≤ hEnd A h := by
+  unfold toCloser hEnd
+  grind
+
 /-! ### strictness: a witness's deadline is ahead -/
 
 theorem Forced.now_lt {s : S} {A : Nat} (i : Inv s) (hf : Forced s A) : s.now < A := by
@@ -188,7 +214,13 @@ theorem step_will {s : S} {A : Nat} (i : Inv s) (w : Will s A) (e : Event) : Wil
     cases e with
     | request j k => rw [(startCloser_ignored (Or.inr hd) j k 0).1]; exact hd
     | replyClose j fa => rw [(startCloser_ignored (Or.inr hd) j .quick fa).2]; exact hd
-    | handlerFinish j => exact hd
+    | handlerFinish j =>
+      unfold step; simp only []
+      split
+      · exact hd
+      · split
+        · exact doAbort_down _ (transportClose_down (s := { s with handlers := _ }) hd)
+        · exact transportClose_down (s := { s with handlers := _ }) hd
     | handlerCancel j =>
       show (s.crash j).down = true
       unfold S.crash; simp [hd]
@@ -228,11 +260,35 @@ theorem step_will {s : S} {A : Nat} (i : Inv s) (w : Will s A) (e : Event) : Wil
     | request j k => rw [(startCloser_ignored (Or.inl hcl) j k 0).1]; exact Or.inr hf
     | replyClose j fa => rw [(startCloser_ignored (Or.inl hcl) j .quick fa).2]; exact Or.inr hf
     | handlerFinish j =>
-      right
-      rcases hf with hw | ⟨h, hh, hin, d, hk, hd⟩
-      · left; exact hw
+      rcases Bool.eq_false_or_eq_true (step s (.handlerFinish j)).lost with hl | hl
+      · exact of_lost hl
       · right
-        exact ⟨h, List.mem_map.mpr ⟨h, hh, finishHandler_inClose hin⟩, hin, d, hk, hd⟩
+        unfold step at hl ⊢
+        simp only [] at hl ⊢
+        split
+        · rcases hf with hw | ⟨h, hh, hin, d, hk, hd⟩
+          · left; exact hw
+          · right
+            exact ⟨h, List.mem_map.mpr ⟨h, hh, finishHandler_inClose hin⟩, hin, d, hk, hd⟩
+        · rename_i fa hfs
+          rw [hfs] at hl
+          simp only [] at hl
+          split
+          · rename_i hfa
+            rw [if_pos hfa, doAbort_lost] at hl; cases hl
+          · have e : ({ s with handlers := s.handlers.map (toCloser s.fixed s.now j) } : S).transportClose
+                = { s with handlers := s.handlers.map (toCloser s.fixed s.now j) } := by
+              rcases transportClose_cases
+                  { s with handlers := s.handlers.map (toCloser s.fixed s.now j) } with
+                ⟨_, e⟩ | ⟨h, _⟩ | ⟨h, _⟩
+              · exact e
+              · rw [hcl] at h; cases h
+              · rw [hcl] at h; cases h
+            rw [e]
+            rcases hf with hw | ⟨h, hh, hin, d, hk, hd⟩
+            · left; exact hw
+            · right
+              exact ⟨h, List.mem_map.mpr ⟨h, hh, toCloser_inClose hin⟩, hin, d, hk, hd⟩
     | handlerCancel j =>
       show Will (s.crash j) A
       unfold S.crash
@@ -313,7 +369,15 @@ theorem step_EB {s : S} {A T : Nat} (i : Inv s) (w : Will s A) (hcd : s.closing 
   cases e with
   | request j k => rw [(startCloser_ignored hcd j k 0).1]; exact h
   | replyClose j fa => rw [(startCloser_ignored hcd j .quick fa).2]; exact h
-  | handlerFinish j => exact EB.map (s := s) h (fun x => hEnd_finish A j x)
+  | handlerFinish j =>
+    unfold step; simp only []
+    split
+    · exact EB.map (s := s) h (fun x => hEnd_finish A j x)
+    · have h1 : EB ({ s with handlers := s.handlers.map (toCloser s.fixed s.now j) } : S) A T :=
+        EB.map (s := s) h (fun x => hEnd_toCloser A _ _ j x)
+      split
+      · exact closeAbort_EB (s := { s with handlers := _ }) hn h1
+      · exact transportClose_EB (s := { s with handlers := _ }) hn h1
   | handlerCancel j =>
     show EB (s.crash j) A T
     unfold S.crash
